@@ -140,20 +140,7 @@ def distinct_sorted(case):
 CAPTURE = ("__splink__stable_nodes_at_new_threshold", "__splink__nodes_in_play")
 
 
-def run_impl(case, capture=False):
-    from splink.internals.clustering import cluster_pairwise_predictions_at_multiple_thresholds as cpm
-    api = su.make_api(case["backend"])
-    cap = []
-    if capture:
-        orig = api.sql_pipeline_to_splink_dataframe
-
-        def wrap(pipeline, use_cache=True):
-            sdf = orig(pipeline, use_cache)
-            if sdf.templated_name in CAPTURE:
-                cap.append((sdf.templated_name, sdf.as_record_dict()))
-            return sdf
-
-        api.sql_pipeline_to_splink_dataframe = wrap
+def _frames(case):
     kind = "int" if case["idkind"] == "int" else "str"
     nodes = pd.DataFrame({"uid": X5._col([X5.key_of(x) for x in case["nodes"]], kind)})
     edges = pd.DataFrame({
@@ -161,11 +148,51 @@ def run_impl(case, capture=False):
         "uid_r": X5._col([X5.key_of(e[1]) for e in case["edges"]], kind),
         "match_probability": pd.Series([X5.pfloat(e[2]) for e in case["edges"]], dtype="float64"),
     })
-    tk, vals = case["thresholds"]
-    kw = {"match_probability_thresholds": [k / 1024 for k in vals]} if tk == "p" else \
-        {"match_weight_thresholds": list(vals)}
-    out = cpm(nodes, edges, api, "uid", output_cluster_summary_stats=bool(case.get("stats")), **kw)
-    recs = out.as_record_dict()
+    return nodes, edges
+
+
+def call_on(api, case, capture=False):
+    """One call of the real routine on the given (possibly already used) db_api.
+    case["sdf"]: hand the inputs over as SplinkDataFrames registered once per distinct graph on this
+    api (re-used by later calls with the same graph) instead of raw pandas frames."""
+    from splink.internals.clustering import cluster_pairwise_predictions_at_multiple_thresholds as cpm
+    nodes, edges = _frames(case)
+    if case.get("sdf"):
+        store = api.__dict__.setdefault("_verif_tables", {})
+        key = repr((case["idkind"], [X5.key_of(x) for x in case["nodes"]],
+                    [(X5.key_of(l), X5.key_of(r), k) for l, r, k in case["edges"]]))
+        if key not in store:
+            n = len(store)
+            store[key] = (api.register_table(nodes, f"verif_c11_nodes_{n}"), api.register_table(edges, f"verif_c11_edges_{n}"))
+        nodes, edges = store[key]
+    cap = []
+    plain = type(api).sql_pipeline_to_splink_dataframe.__get__(api)
+    if capture:
+        def wrap(pipeline, use_cache=True):
+            sdf = plain(pipeline, use_cache)
+            if sdf.templated_name in CAPTURE:
+                cap.append((sdf.templated_name, sdf.as_record_dict()))
+            return sdf
+
+        api.sql_pipeline_to_splink_dataframe = wrap
+    try:
+        tk, vals = case["thresholds"]
+        kw = {"match_probability_thresholds": [k / 1024 for k in vals]} if tk == "p" else \
+            {"match_weight_thresholds": list(vals)}
+        out = cpm(nodes, edges, api, "uid", output_cluster_summary_stats=bool(case.get("stats")), **kw)
+        recs = out.as_record_dict()
+    finally:
+        api.__dict__.pop("sql_pipeline_to_splink_dataframe", None)
+    return recs, cap
+
+
+def run_impl(case, capture=False):
+    """Fresh db_api; the calls listed in case["prior"] are made first on the same api (their results
+    are not inspected here), then the call described by the case itself."""
+    api = su.make_api(case["backend"])
+    for prior in case.get("prior") or []:
+        call_on(api, prior)
+    recs, cap = call_on(api, case, capture)
     return (recs, cap) if capture else recs
 
 
@@ -203,15 +230,42 @@ def oracle(case, value):
     return {v: find(v) for v in range(n)}
 
 
+def _fmt6(x: float) -> str:
+    t = f"{x:.6f}".rstrip("0")
+    if t.endswith("."):
+        t = t[:-1]
+    return t.replace(".", "_")
+
+
+def column_name(kind, item) -> str:
+    """Name of the detailed-output column for a requested threshold: cluster_p_<probability> (0_0 and
+    1_0 for 0 and 1) or cluster_mw_<weight as requested> (minus_ for a negative sign), six decimals at
+    most, trailing zeros dropped, '.' written '_'."""
+    if kind == "p":
+        if item == 0:
+            return "cluster_0_0"
+        if item == 1024:
+            return "cluster_1_0"
+        return "cluster_p_" + _fmt6(item / 1024)
+    w = float(item)
+    body = _fmt6(abs(w))
+    return "cluster_mw_" + ("minus_" if w < 0 and body != "0" else "") + body
+
+
 def canonical_detail(case, recs):
-    """-> ([(request item, [(rank, cluster rank) in node order])], None) or (None, reason)."""
+    """-> ([(request item, [(rank, cluster rank) in node order])], None) or (None, reason).
+    Every requested threshold is read from the column that carries its name (not by position)."""
     rk = X5.rank_map(case)
     ds = distinct_sorted(case)
+    kind = case["thresholds"][0]
     if not recs:
         return None, "no rows returned"
     cols = list(recs[0].keys())
-    if cols[0] != "uid" or len(cols) != 1 + len(ds):
-        return None, f"columns {cols} do not match {len(ds)} distinct thresholds"
+    want = [column_name(kind, item) for _, item in ds]
+    if len(set(want)) != len(want):
+        raise ValueError(f"two requested thresholds share a column name: {want}")
+    if cols[0] != "uid" or sorted(cols[1:]) != sorted(want):
+        return None, f"columns {cols} are not uid + {want}"
     by_node = {}
     for r in recs:
         if r["uid"] not in rk:
@@ -223,7 +277,7 @@ def canonical_detail(case, recs):
         if X5.key_of(x) not in by_node:
             return None, f"node {X5.key_of(x)!r} missing from the output"
     res = []
-    for (val, item), col in zip(ds, cols[1:]):
+    for (val, item), col in zip(ds, want):
         column = []
         for x in case["nodes"]:
             cid = by_node[X5.key_of(x)][col]
@@ -397,7 +451,8 @@ def features_of(case):
     kind, vals = case["thresholds"]
     return {"backend": case["backend"], "threshold_kind": kind, "stats": bool(case.get("stats")),
             "negative_match_weight_detailed": bool(kind in ("w", "wf") and not case.get("stats") and any(float(w) < 0 for w in vals)),
-            "n_thresholds": len(vals), "n_nodes": len(case["nodes"])}
+            "n_thresholds": len(vals), "n_nodes": len(case["nodes"]),
+            "earlier_calls_on_same_db_api": len(case.get("prior") or []), "splinkdataframe_inputs": bool(case.get("sdf"))}
 
 
 # ----------------------------------------------------------------------------------------
@@ -453,6 +508,40 @@ def build_wf_case(rng, fam, n, backend, idkind, stats):
     c["stats"] = stats
     del c["thr"]
     return c
+
+
+def gen_sequence(rng, backend, kind, sdf):
+    """2-3 calls to be made on ONE db_api."""
+    idkind = rng.choice(["int", "str"])
+
+    def graph():
+        fam = rng.choice(["cliques_bridges", "forest_small", "random_sparse", "path_random", "star", "cycle"])
+        c = X5.build_case(rng, fam, rng.choice([4, 6, 9]), "standalone", backend, idkind, None, thr=None, cut_rate=1.0, noise=True)
+        for e in c["edges"]:
+            e[2] = rng.choice(PROBS)
+        del c["thr"]
+        return c
+
+    def thresholds():
+        return gen_thresholds(rng, allow_negative_weights=True)
+
+    n = rng.choice([2, 3])
+    g0, t0, st0 = graph(), thresholds(), rng.random() < 0.3
+    seq = []
+    for i in range(n):
+        if kind == "graphs":          # different graphs, identical thresholds / form / output mode
+            g, t, st = (g0 if i == 0 else graph()), t0, st0
+        elif kind == "thresholds":    # same graph, different thresholds
+            g, t, st = g0, (t0 if i == 0 else thresholds()), st0
+        elif kind == "modes":         # same graph and thresholds, output mode alternates
+            g, t, st = g0, t0, (st0 if i % 2 == 0 else not st0)
+        else:                          # mixed
+            g = g0 if rng.random() < 0.5 else graph()
+            t = t0 if rng.random() < 0.6 else thresholds()
+            st = rng.random() < 0.4
+        c = dict(g, thresholds=[t[0], list(t[1])], stats=st, sdf=sdf, family="seq_" + kind)
+        seq.append(c)
+    return seq
 
 
 def grid_case(rng, n, probs_per_pair, thresholds, backend, stats=False):
